@@ -101,4 +101,47 @@ pub fn run(rep: &mut Report, tier: &str, seed: u64) {
                 }
             }
         });
+    locality_stream(rep, tier, seed);
+}
+
+/// Lazy evaluation runs scan subjects, conditions and loop sources while matches are still being collected, on the
+/// strength of the checker's "local" certificate. Pairs (definer stanza, reader stanza) in which a value depending on
+/// the defined scoped variable reaches such a place must be rejected; when one is accepted, both orders of the two
+/// stanzas must agree like any other accepted file.
+fn locality_stream(rep: &mut Report, tier: &str, seed: u64) {
+    let n = if tier == "thorough" { 1500 } else { 150 };
+    let root = crate::rng::Rng::new(seed ^ 0x10ca2);
+    for i in 0..n {
+        let mut r = root.fork(i as u64);
+        let (definer, reader, form) = crate::gen::dsl::live_nonlocal_pair(&mut r);
+        let orders = [format!("{}{}", definer, reader), format!("{}{}", reader, definer)];
+        let files: Vec<_> = orders.iter().map(|t| load(t)).collect();
+        match (&files[0], &files[1]) {
+            (Ok(Err(_)), Ok(Err(_))) => rep.count("locality-stream:rejected-as-required"),
+            (Ok(Ok(f0)), Ok(Ok(f1))) => {
+                rep.count(&format!("locality-stream:ACCEPTED:{}", form));
+                for ti in 0..3 {
+                    let source = crate::props::common::gen_source(&mut r, ti == 1, false);
+                    let info = crate::tree::TreeInfo::new(&source.tree);
+                    let cfg = RunCfg { lazy: true, globals: vec![], outer_globals: vec![], debug: None, cancel_at: None };
+                    let a = run_impl(f0, &source.tree, &source.src, &info, &cfg);
+                    let b = run_impl(f1, &source.tree, &source.src, &info, &cfg);
+                    let (ca, cb) = (crate::props::c01::outcome_class(&a.outcome), crate::props::c01::outcome_class(&b.outcome));
+                    let replay = json!({"original": orders[0], "permuted": orders[1], "source": source.src, "form": form,
+                        "original_outcome": ca, "permuted_outcome": cb});
+                    if ca == "panic" || cb == "panic" {
+                        rep.fail("impl-panic", "C08 lazy execution of an accepted locality-stream file panics", true, replay);
+                    } else if (ca == "ok") != (cb == "ok") {
+                        rep.fail("direct", &format!("C08 reordering stanzas changes whether lazy execution succeeds ({} vs {}) [accepted {}: a non-local value certified local]", ca, cb, form), true, replay);
+                    } else if ca == "ok" && isomorphic(a.graph.as_ref().unwrap(), b.graph.as_ref().unwrap()) == Some(false) {
+                        rep.fail("direct", &format!("C08 reordering stanzas changes the lazy graph [accepted {}]", form), true, replay);
+                    } else {
+                        rep.count("locality-stream:accepted-and-orders-agree");
+                    }
+                }
+            }
+            (Err(()), _) | (_, Err(())) => rep.fail("impl-panic", "C08 loading a locality-stream file panics", true, json!({"tsg": orders[0]})),
+            _ => rep.fail("direct", "C08 a file is accepted in one order of its stanzas and rejected in the other", true, json!({"original": orders[0], "permuted": orders[1]})),
+        }
+    }
 }
